@@ -229,4 +229,14 @@ def stepEv (orc : Nat → Nat) (rs : RState) (op : Op) : RState × Out × List M
     | none => (rs', o, [])
   | _, _ => (rs', o, pg)
 
+/-- the event stream of a scripted run -/
+def traceFrom (orc : Nat → Nat) : RState → List Op → List MEv
+  | _, [] => []
+  | rs, op :: ops => (stepEv orc rs op).2.2 ++ traceFrom orc (stepEv orc rs op).1 ops
+
+/-- …including the page obtained by `with_page_size` -/
+def trace (orc : Nat → Nat) (pageSize : Nat) (ops : List Op) : Option (List MEv) :=
+  (start orc pageSize).map fun rs =>
+    newPages { rs.st with pages := [] } rs.st ++ traceFrom orc rs ops
+
 end Alloc
